@@ -141,6 +141,12 @@ func (c *Ctx) reportFamily(p *Profile, mm []Mismatch, extra func(Mismatch) bool)
 		ps := p.props(m)
 		if !ps[c.ID] && !(extra != nil && extra(m)) {
 			other++
+			kinds, _ := c.Cov["mismatch_kinds_attributed_elsewhere"].(map[string]int)
+			if kinds == nil {
+				kinds = map[string]int{}
+				c.Cov["mismatch_kinds_attributed_elsewhere"] = kinds
+			}
+			kinds[str(m.Rec["what"])]++
 			continue
 		}
 		for _, sig := range p.sigOf(m) {
